@@ -186,9 +186,12 @@ pub fn write_pipeline_to_cas(
                 src_span: value.span(),
             })),
         },
-        PipelineData::ListStream(_stream, ..) => {
-            panic!("ListStream handling is not yet implemented");
-        }
+        PipelineData::ListStream(stream, ..) => Err(Box::new(ShellError::PipelineMismatch {
+            exp_input_type: "expected: string, binary, record, or nothing :: received: list stream"
+                .into(),
+            dst_span: span,
+            src_span: stream.span(),
+        })),
         PipelineData::ByteStream(stream, ..) => {
             if let Some(mut reader) = stream.reader() {
                 let mut buffer = [0; 8192];
